@@ -37,6 +37,12 @@ box_str = z3.Function('box_str', Str, Ref)
 str_truthy = z3.Function('str_truthy', Str, B)
 
 EMPTY = z3.K(Ref, False)
+nonempty = z3.Function('nonempty', SetV, B)     # named so that equal set values are equi-nonempty by congruence
+
+
+def ne_facts(A):
+    x = fresh('x', Ref)
+    return [nonempty(A) == z3.Exists([x], z3.Select(A, x))]
 
 
 def _has_ite(t):
@@ -138,6 +144,8 @@ def background_axioms():
     s = z3.Const('bg_s', Str)
     ax = []
     ax.append(z3.Distinct(NONE, TRUE, FALSE))
+    A_ = z3.Const('bg_A', SetV)
+    ax.append(z3.ForAll([A_], nonempty(A_) == z3.Exists([x], z3.Select(A_, x)), patterns=[nonempty(A_)]))
     ax += [z3.Not(truthy(NONE)), z3.Not(truthy(FALSE)), truthy(TRUE)]
     for ch, ps in PARENTS.items():
         for p in ps:
@@ -379,13 +387,15 @@ def ext_at(A, Bs, x):
     return z3.Or(A == Bs, z3.Select(A, x) != z3.Select(Bs, x))
 
 
-def setdef(state_or_list, pred, prefix='S'):
+def setdef(state_or_list, pred, prefix='S', triggers=None):
     """Definitional extension: a fresh set value A with  forall x. A[x] <-> pred(x).
-    Sound by comprehension; the defining axiom is appended to the given assumption sink."""
+    Sound by comprehension; the defining axiom is appended to the given assumption sink.
+    triggers: optional fn(x) -> extra patterns (besides A[x]) that instantiate the definition."""
     A = fresh(prefix, SetV)
     x = fresh('x', Ref)
     SETDEFS[A.get_id()] = pred
-    ax = FA([x], z3.Select(A, x) == pred(x), patterns=[z3.Select(A, x)])
+    pats = [z3.Select(A, x)] + (list(triggers(x)) if triggers else [])
+    ax = FA([x], z3.Select(A, x) == pred(x), patterns=pats)
     if isinstance(state_or_list, State):
         state_or_list.assume(ax)
     else:
